@@ -57,6 +57,14 @@ def gen(rng, tier):
         sel = g
     for c in sel:
         cases.append(cell(*c, seed=rng.randint(1, 10**6)))
+    # "equals byte for byte what the client sent" under a disk write fault while the body is saved (mode X of the
+    # shared harness, see props/c10.py): the handler must never be handed a shortened body
+    import c10 as _c10
+    for L in (200, 7000, 70000):
+        for lim in (0, 4096, L - 1):
+            if lim < L:
+                for declared in (True, False):
+                    cases.append("X 100 ok %d %s" % (lim, _c10.upload("/g%d" % (L + 5), L, L, declared, False, rng.randint(1, 10**6), False)))
     return cases
 
 import c04 as _c04
@@ -67,13 +75,15 @@ def classify(case, model):
     t = case.split()
     if t[0] == "tables":
         return "tables"
+    if t[0] == "X":
+        return "write-fault"
     a = t[t.index("@c09") + 1:]
     S, M, L = int(a[0]), int(a[1]), int(a[2])
     return "S=%d:%s:%s:%s" % (S, "L<=S" if L <= S else "L>S", "L<=M" if L <= M else "L>M", "declared" if a[3] == "1" else "undeclared")
 
 def nontrivial(case, model):
     t = case.split()
-    return t[0] == "D" and int(t[t.index("@c09") + 3]) > 0
+    return t[0] == "X" or (t[0] == "D" and int(t[t.index("@c09") + 3]) > 0)
 
 
 def pre_proof():
